@@ -6,6 +6,7 @@ import CalVerif.Model.Dates
     `civil <ms|nf> …`            → `;`-joined `Y-M-D h:mi:s.ms` | `none`   (`asDatetimeOfMs`)
     `dur <ms|nf> …`              → `;`-joined `<ms>` | `none`               (`durationOfMs`)
     `cell <num|dt|other> <msDt> <msDur>` → `dt=… date=… time=… dur=…`       (trait level)
+    `helper <num|dt|other> <msDt> <msDur> <ms1900>` → the same four fields for `Cell.viaSerde`
     `day <1900|1904> <n>`        → canonical date-time of the whole-day serial `n`
     `sweep <1900|1904> <lo> <hi>` → FNV-64 (hex) over `day` of every serial in [lo,hi), each
                                     terminated by `;` -/
@@ -61,6 +62,18 @@ def handle (line : String) : String :=
       | some c => s!"dt={showDT c.asDatetime} date={showOpt showDate c.asDate} time={showOpt showTime c.asTime} dur={showOpt toString c.asDuration}"
       | none => "bad-kind"
     | _, _ => "bad-arg"
+  | ["helper", kind, a, b, c] =>
+    match parseMs a, parseMs b, parseMs c with
+    | some ma, some mb, some mc =>
+      let c? : Option Cell :=
+        if kind = "num" then some (.num ma) else if kind = "dt" then some (.dateTime ma mb)
+        else if kind = "other" then some .other else none
+      match c? with
+      | some c0 =>
+        let c := c0.viaSerde mc
+        s!"dt={showDT c.asDatetime} date={showOpt showDate c.asDate} time={showOpt showTime c.asTime} dur={showOpt toString c.asDuration}"
+      | none => "bad-kind"
+    | _, _, _ => "bad-arg"
   | ["day", sys, n] =>
     match system? sys, n.toInt? with
     | some b, some v => showDT (datetimeOfSerial b v)
